@@ -9,16 +9,22 @@ Notation sblock := (list N) (only parsing).               (* counters: [u128; 4]
 (* SuperblockPlain::new(sbc) *)
 Definition sb_new (sbc : list N) : sblock := map (fun c => N.shiftl c SB_SHIFT mod 2 ^ 128) sbc.
 
-(* get_rank(symbol, block_id) *)
+(* get_rank(symbol, block_id): every operation of the source at its machine width (u128 data, usize
+   arithmetic), including the `as usize` truncations and the overflow checks of `(block_id - nf) * 12`,
+   `data >> ..` (amount >= 128 for block_id >= 12), `.. * not_first` and `sb + b`; equal to the
+   regenerated g_sb_get_rank for every block_id (Proofs/LeavesSBOk.v) *)
 Definition sb_get_rank (s : sblock) (symbol block_id : N) : outcome N :=
   let! data := uidx s symbol in
-  let sb := N.shiftr data SB_SHIFT_GR in
+  let sb := N.shiftr data SB_SHIFT_GR mod 2 ^ 64 in
   let not_first := if 0 <? block_id then 1 else 0 in
-  let b := N.land (N.shiftr data ((block_id - not_first) * BLK_BITS_GR)) BLK_MASK_GR * not_first in
-  Val (sb + b).
+  let! k := osub block_id not_first in
+  let! sh := omul 64 k BLK_BITS_GR in
+  let! d := oshr 128 data sh in
+  let! b := omul 64 (N.land (d mod 2 ^ 64) BLK_MASK_GR) not_first in
+  oadd 64 sb b.
 
 Definition sb_get_superblock_counter (s : sblock) (symbol : N) : outcome N :=
-  let! data := uidx s symbol in Val (N.shiftr data SB_SHIFT_GC).
+  let! data := uidx s symbol in Val (N.shiftr data SB_SHIFT_GC mod 2 ^ 64).
 
 (* set_block_counters(block_id, counters) *)
 Definition sb_set_block_counters (s : sblock) (block_id : N) (counters : list N) : outcome sblock :=
